@@ -1,7 +1,343 @@
 package main
 
-import "verif/harness/vh"
+import (
+	"bytes"
+	"fmt"
+	"strconv"
+	"strings"
 
-func genTanCases(r *vh.Rand, tier string, n int) []string { return nil }
+	hooks "github.com/lni/dragonboat/v4/verifhooks/c10"
+	"verif/harness/vh"
+)
 
-func runTanLine(line string, obs *vh.LineWriter, st *vh.Stats) {}
+// Tan record layer cases (the real writer/reader of internal/tan/record.go on
+// byte buffers, through the hook VerifC10Frame / VerifC10Replay):
+//
+//	<id> tanframe | rec ; rec ; ...          frame the records, replay the frame
+//	<id> tancut <c1,c2,..|all> | rec ; ...   replay frame[:c] for every listed cut
+//	<id> tangarb <cut> <hex> | rec ; ...     replay frame[:cut] ++ garbage
+//
+// rec = R<len>:<seed> (generated content) or H<hex>.
+
+func parseRecord(tok string) ([]byte, bool) {
+	tok = strings.TrimSpace(tok)
+	if len(tok) < 1 {
+		return nil, false
+	}
+	switch tok[0] {
+	case 'H':
+		s := tok[1:]
+		if s == "-" {
+			return []byte{}, true
+		}
+		if len(s)%2 != 0 {
+			return nil, false
+		}
+		for _, c := range s {
+			if !strings.ContainsRune("0123456789abcdefABCDEF", c) {
+				return nil, false
+			}
+		}
+		return vh.UnHex(s), true
+	case 'R':
+		p := strings.Split(tok[1:], ":")
+		if len(p) != 2 {
+			return nil, false
+		}
+		l, e1 := strconv.Atoi(p[0])
+		seed, e2 := strconv.Atoi(p[1])
+		if e1 != nil || e2 != nil || l < 0 || l > 300000 || seed < 0 || seed > 1000000 {
+			return nil, false
+		}
+		b := make([]byte, l)
+		for j := range b {
+			b[j] = byte((seed*131 + j*7 + (j/251)*13) & 255)
+		}
+		return b, true
+	}
+	return nil, false
+}
+
+func fnv(ls [][]byte) string {
+	h := uint64(0xcbf29ce484222325)
+	add := func(b byte) { h = (h ^ uint64(b)) * 0x100000001b3 }
+	for _, l := range ls {
+		n := len(l)
+		for k := 0; k < 4; k++ {
+			add(byte(n >> (8 * k)))
+		}
+		for _, b := range l {
+			add(b)
+		}
+	}
+	return fmt.Sprintf("%016x", h)
+}
+
+func showReplay(recs [][]byte, v string) string {
+	return fmt.Sprintf("n=%d v=%s h=%s", len(recs), v, fnv(recs))
+}
+
+func isPrefix(got [][]byte, all [][]byte) bool {
+	if len(got) > len(all) {
+		return false
+	}
+	for i := range got {
+		if !bytes.Equal(got[i], all[i]) {
+			return false
+		}
+	}
+	return true
+}
+
+func runTanLine(line string, obs *vh.LineWriter, st *vh.Stats) {
+	head, body, _ := strings.Cut(line, " | ")
+	hf := strings.Fields(head)
+	id, kind, args := hf[0], hf[1], hf[2:]
+	var recs [][]byte
+	for _, t := range strings.Split(body, " ; ") {
+		if strings.TrimSpace(t) == "" {
+			continue
+		}
+		b, ok := parseRecord(t)
+		if !ok {
+			obs.Printf("%s badcase\n", id)
+			return
+		}
+		recs = append(recs, b)
+	}
+	var fr []byte
+	var ferr error
+	if p := vh.Catch(func() { fr, ferr = hooks.TanFrame(recs) }); p != "" || ferr != nil {
+		obs.Printf("%s frame failed\n", id)
+		st.Violation(id, fmt.Sprintf("tan-record: the writer failed on an in-memory buffer: %s %v", p, ferr))
+		return
+	}
+	// ends[j] = length of the frame of the first j records
+	ends := make([]int, len(recs)+1)
+	for j := 1; j <= len(recs); j++ {
+		f, _ := hooks.TanFrame(recs[:j])
+		ends[j] = len(f)
+		if !bytes.Equal(f, fr[:len(f)]) {
+			st.Violation(id, "tan-record: the frame of a prefix of the records is not a prefix of the frame")
+		}
+	}
+	complete := func(cut int) int {
+		j := 0
+		for j < len(recs) && ends[j+1] <= cut {
+			j++
+		}
+		return j
+	}
+	blk, _ := hooks.TanBlockSize()
+	multi := len(fr) > blk
+	for _, r := range recs {
+		if len(r) > blk-14 {
+			multi = true
+		}
+	}
+	replay := func(data []byte) ([][]byte, string) {
+		var got [][]byte
+		var v string
+		if p := vh.Catch(func() { got, v = hooks.TanReplay(data) }); p != "" {
+			return nil, "panic"
+		}
+		return got, v
+	}
+	key := line[len(id):]
+	st.Count("tan." + kind)
+	switch {
+	case kind == "tanframe" && len(args) == 0:
+		hx := ""
+		if len(fr) <= 512 {
+			hx = " hex=" + vh.Hex(fr)
+		}
+		obs.Printf("%s frame len=%d fnv=%s%s\n", id, len(fr), fnv([][]byte{fr}), hx)
+		got, v := replay(fr)
+		obs.Printf("%s replay %s\n", id, showReplay(got, v))
+		// MONITOR: replay (frame rs) = rs
+		if v != "eof" || len(got) != len(recs) || !isPrefix(got, recs) {
+			st.Violation(id, fmt.Sprintf("tan-record: replay of a complete log returned %d of %d records, verdict %s", len(got), len(recs), v))
+		}
+		st.Case(key, multi, line)
+	case kind == "tancut" && len(args) == 1:
+		var cuts []int
+		if args[0] == "all" {
+			for c := 0; c <= len(fr); c++ {
+				cuts = append(cuts, c)
+			}
+		} else {
+			for _, s := range strings.Split(args[0], ",") {
+				c, err := strconv.Atoi(s)
+				if err != nil {
+					obs.Printf("%s badcase\n", id)
+					return
+				}
+				cuts = append(cuts, c)
+			}
+		}
+		torn := false
+		for _, c := range cuts {
+			if c < 0 || c > len(fr) {
+				obs.Printf("%s cut=%d skipped\n", id, c)
+				continue
+			}
+			got, v := replay(fr[:c])
+			obs.Printf("%s cut=%d %s\n", id, c, showReplay(got, v))
+			st.Count("tan.cut-verdict." + v)
+			// MONITOR: exactly the complete records, and a verdict open() recovers from
+			want := complete(c)
+			if len(got) != want || !isPrefix(got, recs) {
+				st.Violation(id, fmt.Sprintf("tan-record: log cut at byte %d of %d: replay returned %d records, %d are complete", c, len(fr), len(got), want))
+			}
+			if v != "eof" && !hooks.TanIsInvalidRecord(v) {
+				st.Violation(id, fmt.Sprintf("tan-record: log cut at byte %d of %d: replay ends with %q which open() does not treat as a torn tail", c, len(fr), v))
+			}
+			if c != ends[want] {
+				torn = true
+			}
+		}
+		st.Case(key, torn, line)
+	case kind == "tangarb" && len(args) == 2:
+		c, err := strconv.Atoi(args[0])
+		ok := err == nil
+		var g []byte
+		if ok {
+			if _, gok := parseRecord("H" + args[1]); !gok {
+				ok = false
+			} else {
+				g = vh.UnHex(args[1])
+			}
+		}
+		if !ok {
+			obs.Printf("%s badcase\n", id)
+			return
+		}
+		if c < 0 || c > len(fr) {
+			obs.Printf("%s garb skipped\n", id)
+			return
+		}
+		data := append(append([]byte{}, fr[:c]...), g...)
+		got, v := replay(data)
+		obs.Printf("%s garb %s\n", id, showReplay(got, v))
+		st.Count("tan.garb-verdict." + v)
+		// MONITOR: the complete records are never lost, whatever follows them; what is
+		// read beyond them is not checked here (garbage may happen to be a valid chunk)
+		want := complete(c)
+		if len(got) < want || !isPrefix(got[:want], recs) {
+			st.Violation(id, fmt.Sprintf("tan-record: log cut at byte %d followed by garbage: replay returned %d records, %d are complete", c, len(got), want))
+		}
+		st.Case(key, true, line)
+	default:
+		obs.Printf("%s badcase\n", id)
+	}
+}
+
+// ---------------------------------------------------------------------------
+
+func recTok(l int, seed int) string { return fmt.Sprintf("R%d:%d", l, seed) }
+
+func genTanCases(r *vh.Rand, tier string, n int) []string {
+	blk, hdr := hooks.TanBlockSize()
+	var out []string
+	add := func(kind string, args string, recs []string) {
+		id := fmt.Sprintf("t%d", len(out))
+		if args != "" {
+			args = " " + args
+		}
+		out = append(out, fmt.Sprintf("%s %s%s | %s", id, kind, args, strings.Join(recs, " ; ")))
+	}
+	smallRecs := func() []string {
+		k := 1 + r.Intn(5)
+		var rs []string
+		for i := 0; i < k; i++ {
+			switch r.Intn(6) {
+			case 0:
+				rs = append(rs, "H-")
+			case 1:
+				rs = append(rs, "H"+vh.Hex(r.Bytes(1+r.Intn(6))))
+			default:
+				rs = append(rs, recTok(r.Intn(40), r.Intn(1000)))
+			}
+		}
+		return rs
+	}
+	// records whose chunks end near a block boundary
+	bigRecs := func() []string {
+		var rs []string
+		pos := 0
+		k := 2 + r.Intn(4)
+		for i := 0; i < k; i++ {
+			var l int
+			room := blk - (pos % blk) - hdr
+			switch r.Intn(7) {
+			case 0: // ends exactly at the block end
+				l = room
+			case 1: // leaves 1..7 bytes in the block
+				l = room - 1 - r.Intn(7)
+			case 2: // one byte too many: first + last chunk
+				l = room + 1 + r.Intn(3)
+			case 3: // several blocks
+				l = room + blk - hdr + r.Intn(3) - 1 + r.Intn(2)*(blk-hdr)
+			case 4:
+				l = r.Intn(100)
+			default:
+				l = r.Intn(blk / 2)
+			}
+			if l < 0 {
+				l = 0
+			}
+			rs = append(rs, recTok(l, r.Intn(1000)))
+			// approximate position bookkeeping (exact enough to aim at the boundaries)
+			rem := l
+			if blk-(pos%blk) < hdr {
+				pos += blk - (pos % blk)
+			}
+			for {
+				av := blk - (pos % blk) - hdr
+				if rem <= av {
+					pos += hdr + rem
+					break
+				}
+				pos += hdr + av
+				rem -= av
+			}
+		}
+		return rs
+	}
+	ns, nb := 20, 6
+	if tier == "thorough" {
+		ns, nb = 600, 150
+	}
+	if n > 0 {
+		ns, nb = n, n/4+1
+	}
+	for i := 0; i < ns; i++ {
+		rs := smallRecs()
+		add("tanframe", "", rs)
+		add("tancut", "all", rs)
+		// garbage tails: zeroes, random bytes, a bit flip of the tail of the frame
+		g := r.Bytes(1 + r.Intn(24))
+		if r.Chance(1, 3) {
+			g = make([]byte, 1+r.Intn(40))
+		}
+		add("tangarb", fmt.Sprintf("%d %s", r.Intn(120), vh.Hex(g)), rs)
+	}
+	for i := 0; i < nb; i++ {
+		rs := bigRecs()
+		add("tanframe", "", rs)
+		// cuts around the block boundaries and at random places
+		var cuts []string
+		for b := 1; b <= 3; b++ {
+			for d := -9; d <= 9; d++ {
+				cuts = append(cuts, strconv.Itoa(b*blk+d))
+			}
+		}
+		for j := 0; j < 25; j++ {
+			cuts = append(cuts, strconv.Itoa(r.Intn(3*blk)))
+		}
+		add("tancut", strings.Join(cuts, ","), rs)
+		g := r.Bytes(1 + r.Intn(24))
+		add("tangarb", fmt.Sprintf("%d %s", r.Intn(2*blk), vh.Hex(g)), rs)
+	}
+	return out
+}
